@@ -322,6 +322,23 @@ def cardano_consts():
     except ValueError:
         fail(f"cardano_shelley.py: staking path {sp[0]!r} is not a plain relative path")
     out.append("Definition shelley_staking_path : list Z := [%s]." % "; ".join("%d%%Z" % e for e in elems))
+    # --- CBOR indefinite-length arrays (the HD path codec)
+    CB = "bip_utils/utils/misc/cbor_indefinite_len_array.py"
+    cb = importlib.import_module("bip_utils.utils.misc.cbor_indefinite_len_array")
+    reflect(CB, "CborIds", "INDEF_LEN_ARRAY_START")
+    reflect(CB, "CborIds", "INDEF_LEN_ARRAY_END")
+    out.append("Definition cbor_indef_start : N := %d." % int(cb.CborIds.INDEF_LEN_ARRAY_START))
+    out.append("Definition cbor_indef_end : N := %d." % int(cb.CborIds.INDEF_LEN_ARRAY_END))
+    tab = reflect(CB, "CborIndefiniteLenArrayConst", "UINT_IDS_TO_BYTE_LEN")
+    out.append("Definition cbor_uint_id_lens : list (N * nat) := [%s]." %
+               "; ".join("(%d, %d%%nat)" % (int(k), int(v)) for k, v in sorted(tab.items(), key=lambda kv: int(kv[0]))))
+    # the minimum length test of Decode: first comparison  len(enc_bytes) < N
+    fn = _func(CB, "CborIndefiniteLenArrayDecoder", "Decode")
+    cmps = [n for n in ast.walk(fn) if isinstance(n, ast.Compare) and len(n.ops) == 1 and isinstance(n.ops[0], ast.Lt)
+            and isinstance(n.left, ast.Call) and isinstance(n.left.func, ast.Name) and n.left.func.id == "len"
+            and isinstance(n.comparators[0], ast.Constant)]
+    expect(len(cmps) == 1, f"{CB}: Decode: expected one 'len(..) < N' test, found {len(cmps)}")
+    out.append("Definition cbor_indef_min_len : nat := %d%%nat." % cmps[0].comparators[0].value)
     # --- Byron addresses
     by = importlib.import_module("bip_utils.addr.ada_byron_addr")
     out.append("Definition ada_byron_type_pubkey : N := %d." % int(by.AdaByronAddrTypes.PUBLIC_KEY))
